@@ -140,6 +140,8 @@ def gen_heap_consts():
 #   3  the size is a constant, an instruction operand (<= 255) or a VM-internal quantity with its own limit
 #      (register stack, frames, call-site cache, globals table) -- reviewed table below, keyed by the size text
 #   4  constructor in bytecode/src/object: the size is the caller's (every caller in runtime/src is a site itself)
+#   6  the size is the length of a string the VM already holds and has charged (`x.len()` with `let x = get_string(vm, ..)` in the same
+#      function): a transient copy bounded by a live charged object, the explicit form of `x.chars()...collect::<String>()`
 #   0  none of these: a NEW allocating primitive without a preceding capacity check -> the translator fails
 SITE_PATTERNS = [
     ("Vec::with_capacity", r"\bVec::with_capacity\s*\("), ("String::with_capacity", r"\bString::with_capacity\s*\("),
@@ -177,6 +179,14 @@ def _reviewed(rel, size_n, before):
         # element count of a literal: the byte operand c of the instruction
         return bool(re.search(r"let\s+count\s*=\s*c\s+as\s+usize\s*;", before))
     return size_n in REVIEWED_SIZES
+
+
+def _held_len(size_n, before):
+    """the size is the length of a string the VM already holds (and has charged): `x.len()` with `let x = get_string(vm, ..)` earlier in the
+    same function.  The allocation is a transient copy bounded by a live, charged object -- what `x.chars().rev().collect::<String>()` takes
+    without saying so; a size that comes from a program-supplied number never matches"""
+    m = re.fullmatch(r"(\w+)\.len\(\)", size_n)
+    return bool(m and re.search(r"let\s+(?:mut\s+)?%s\s*(?::[^=]+)?=\s*get_string\s*\(\s*vm\s*," % re.escape(m.group(1)), before))
 
 
 # (module, native) whose result is at most linear in the data it was handed
@@ -273,6 +283,8 @@ def gen_heap_sites():
                     cls = 2
                 elif _reviewed(rel, size_n, before):
                     cls = 3
+                elif _held_len(size_n, before):
+                    cls = 6
                 else:
                     cls = 0
                     unguarded.append(f"{rel}: {where}: {kind}({size.strip()[:60]})")
@@ -301,7 +313,8 @@ def gen_heap_sites():
     out = [HEADER.format(src="runtime/src/**, bytecode/src/object/** (every sized host allocation)"),
            "From Coq Require Import String List NArith.\nImport ListNotations.\nLocal Open Scope string_scope.\n",
            "(* (file, enclosing fn / opcode arm, kind, size expression, class)  class: 1 heap-limit check precedes, 2 own bound precedes,\n"
-           "   3 constant / operand / VM-internal bounded quantity (reviewed), 4 constructor (size is the caller's), 0 unguarded *)\n",
+           "   3 constant / operand / VM-internal bounded quantity (reviewed), 4 constructor (size is the caller's),\n"
+           "   6 length of a string the VM already holds and has charged (transient copy), 0 unguarded *)\n",
            "Definition heap_alloc_sites : list (string * string * string * string * N) :=\n  ["]
     out.append(";\n   ".join('("%s", "%s", "%s", "%s", %d%%N)' % (a, b, c, d.replace('"', "'"), e) for a, b, c, d, e in sites))
     out.append("].\n")
